@@ -24,7 +24,7 @@ RULE = (
     "filtered tree is a subtree of the full one), tree exhausted without one = "
     "violation; the search uses either a fresh dispatcher per node or ONE "
     "dispatcher that is reset and replayed for every node (how tree searches "
-    "and RL loops use it), optionally with the feature observers of an RL environment (is-ready, earliest start time, duration) attached to it; the same search is run with the default filter of the RL "
+    "and RL loops use it; one case in six repeats the search with every decision going through SingleJobShopGraphEnv.step), optionally with the feature observers of an RL environment (is-ready, earliest start time, duration) attached to it; the same search is run with the default filter of the RL "
     "environments when that is not the dominated-operations filter itself. A "
     "template family and four fixed instances whose optimum no non-delay "
     "schedule attains are mixed in. Non-trivial: the filter removed an operation in at least one "
@@ -155,7 +155,7 @@ def strategy(tier):
     )
     inst = gen.weighted((3, _instances(11 if big else 9)), (1, general), (1, _delay_template()))
     return st.fixed_dictionaries(
-        {"inst": inst, "reuse": st.booleans(), "observed": gen.pick([False, True, False, False, False, False]), "as_composite": gen.pick([0, 1, 0, 2])}
+        {"inst": inst, "reuse": st.booleans(), "observed": gen.pick([False, True, False, False, False, False]), "as_composite": gen.pick([0, 1, 0, 2]), "via_env": gen.pick([False, False, True, False, False, False])}
     )
 
 
@@ -231,7 +231,7 @@ def _observe(d):
     return d
 
 
-def search(ctx, inst, instance, opt, filt, stats, reuse=False, observed=False):
+def search(ctx, inst, instance, opt, filt, stats, reuse=False, observed=False, env=None):
     """True iff some history over Dispatcher(instance, filt)
     .available_operations() reaches makespan == opt."""
     n_jobs = len(inst["durations"])
@@ -244,7 +244,12 @@ def search(ctx, inst, instance, opt, filt, stats, reuse=False, observed=False):
         _observe(shared)
 
     def rec(prefix):
-        if reuse:
+        if env is not None:
+            # the decisions go through SingleJobShopGraphEnv.step (its default
+            # filter is the dominated-operations filter)
+            env.reset()
+            d = env.dispatcher
+        elif reuse:
             # the way a tree search or an RL loop uses the library: one
             # dispatcher, reset and replayed for every node
             d = shared
@@ -255,7 +260,10 @@ def search(ctx, inst, instance, opt, filt, stats, reuse=False, observed=False):
                 _observe(d)
         m = ref(inst)
         for j, x in prefix:
-            d.dispatch(instance.jobs[j][m.next[j]], x)
+            if env is not None:
+                env.step((j, x))
+            else:
+                d.dispatch(instance.jobs[j][m.next[j]], x)
             m.apply(j, x)
         stats["nodes"] += 1
         if m.complete():
@@ -334,6 +342,25 @@ def check_case(case, ctx):
         f"(best filtered leaf {stats['best']}, {stats['nodes']} nodes explored)",
         opt=opt,
     )
+    if case.get("via_env"):
+        from job_shop_lib.dispatching import DispatcherObserverConfig
+        from job_shop_lib.dispatching.feature_observers import FeatureObserverType
+        from job_shop_lib.graphs import build_disjunctive_graph
+        from job_shop_lib.reinforcement_learning import SingleJobShopGraphEnv
+
+        inst_env = build_instance(inst)
+        env = SingleJobShopGraphEnv(
+            build_disjunctive_graph(inst_env), [DispatcherObserverConfig(FeatureObserverType.IS_READY)]
+        )
+        if env.dispatcher.ready_operations_filter is filter_dominated_operations:
+            st3 = {"nodes": 0, "pruned_states": 0, "best": float("inf")}
+            ctx.check(
+                search(ctx, inst, inst_env, opt, None, st3, env=env),
+                "optimum-lost-through-env",
+                f"OPT={opt} but no sequence of SingleJobShopGraphEnv.step decisions among the filtered available "
+                f"operations reaches it (best episode {st3['best']}, {st3['nodes']} nodes)",
+            )
+            ctx.label("searched_through_env")
     for name, filt in default_env_filters(instance):
         if filt is filter_dominated_operations:
             ctx.count("env_default_is_dominated_filter")
